@@ -80,7 +80,18 @@ type find struct {
 	err    string
 }
 
+// parkedHandler is a relay handler that waits inside FindRoute.
+type parkedHandler struct {
+	dest     int
+	cancel   context.CancelFunc
+	finished chan struct{}
+	herr     error
+	panicked bool
+	pmsg     string
+}
+
 type node struct {
+	parked  *parkedHandler
 	i       int
 	addr    *aurora.Address
 	overlay boson.Address
@@ -132,7 +143,7 @@ type netRun struct {
 	deliv       int
 	nfinds      int
 	ninj        int
-	relaySearch int // relay deliveries that started a route search of their own and were given up
+	relaySearch int // relay deliveries that started a route search of their own
 	seen        int // highest stream sequence number already reported
 	inject      []*routex.Sent
 }
@@ -199,6 +210,17 @@ func (r *netRun) connect(a, b *node) error {
 	}
 	a.nbrs = append(a.nbrs, b.i)
 	return nil
+}
+
+func (r *netRun) disconnect(a, b *node) {
+	a.kad.Disconnected(p2p.Peer{Address: b.overlay, Mode: fullMode}, "verif: link down")
+	var nb []int
+	for _, v := range a.nbrs {
+		if v != b.i {
+			nb = append(nb, v)
+		}
+	}
+	a.nbrs = nb
 }
 
 // force makes exactly the neighbours in fwd "public" at node n (getNeighbor takes
@@ -487,43 +509,79 @@ func (r *netRun) deliver(s *routex.Sent, m msg, fwd []int, forced bool) kit.Ev {
 	// was a FindRoute of this node waiting for this destination?
 	before, _ := n.svc.VerifPending()
 	waitingSelf := hasSelf(before[r.book.Addr(m.Dest).String()], n.overlay)
-	hctx, hcancel := context.WithCancel(r.ctx)
-	var herr error
-	finished := make(chan struct{})
-	var panicked bool
-	var pmsg string
+	cctx, hcancel := context.WithCancel(r.ctx)
+	hctx := &doneCtx{Context: cctx, wake: make(chan struct{}, 8)}
+	ph := &parkedHandler{dest: m.Dest, cancel: hcancel, finished: make(chan struct{})}
 	go func() {
-		defer close(finished)
-		panicked, pmsg = kit.Guard(func() {
-			herr = h(hctx, p2p.Peer{Address: r.book.Addr(m.From), Mode: fullMode}, routex.NewIncoming(s.Bytes()))
+		defer close(ph.finished)
+		ph.panicked, ph.pmsg = kit.Guard(func() {
+			ph.herr = h(hctx, p2p.Peer{Address: r.book.Addr(m.From), Mode: fullMode}, routex.NewIncoming(s.Bytes()))
 		})
 	}()
-	select {
-	case <-finished:
-	case <-time.After(300 * time.Millisecond):
-		// a relay without a next hop starts a FindRoute of its own and waits: give up for it
-		hcancel()
-		<-finished
-		ev["gaveup"] = true
-		r.relaySearch++
+	parked := false
+	deadline := time.After(500 * time.Millisecond)
+wait:
+	for {
+		select {
+		case <-ph.finished:
+			break wait
+		case <-hctx.wake:
+			// the handler (a relay without a stored next hop off its path) sits in FindRoute:
+			// its requests are queued, the scenario goes on, the handler resumes when the search returns
+			parked = true
+			break wait
+		case <-deadline:
+			parked = true
+			break wait
+		}
 	}
-	hcancel()
+	ev["parked"] = parked
 	ev["handled"] = true
 	ev["herr"] = ""
-	if herr != nil {
-		ev["herr"] = herr.Error()
-	}
-	ev["panicked"] = panicked
-	if panicked {
-		ev["panic"] = pmsg
+	ev["panicked"] = false
+	if parked {
+		if old := n.parked; old != nil {
+			old.cancel()
+			<-old.finished
+		}
+		n.parked = ph
+		r.relaySearch++
+	} else {
+		hcancel()
+		if ph.herr != nil {
+			ev["herr"] = ph.herr.Error()
+		}
+		ev["panicked"] = ph.panicked
+		if ph.panicked {
+			ev["panic"] = ph.pmsg
+		}
 	}
 	wait := map[int]bool{}
+	resumed := false
 	if waitingSelf && m.K == "resp" {
 		after, _ := n.svc.VerifPending()
 		if !hasSelf(after[r.book.Addr(m.Dest).String()], n.overlay) {
 			wait[m.Dest] = true
+			// a parked relay handler of this node waits for this search: let it run to its end
+			if p := n.parked; p != nil && p.dest == m.Dest && p != ph {
+				select {
+				case <-p.finished:
+				case <-time.After(2 * time.Second):
+					p.cancel()
+					<-p.finished
+				}
+				n.parked = nil
+				resumed = true
+				if p.herr != nil {
+					ev["resumed_err"] = p.herr.Error()
+				}
+				if p.panicked {
+					ev["panicked"], ev["panic"] = true, p.pmsg
+				}
+			}
 		}
 	}
+	ev["resumed"] = resumed
 	r.collect(ev, n, wait)
 	r.observe(ev, n)
 	return ev
@@ -690,6 +748,22 @@ func runNet(sc kit.Scenario, logger logging.Logger) ([]kit.Ev, error) {
 			r.observe(ev, n)
 		case "inject":
 			ev, err = r.opInject(op)
+		case "linkdown", "linkup":
+			a, b := r.nodes[kit.Int(op, "a")], r.nodes[kit.Int(op, "b")]
+			if a == nil || b == nil {
+				return nil, fmt.Errorf("%s: unknown node", kit.Str(op, "op"))
+			}
+			ev = kit.Ev{"op": kit.Str(op, "op"), "a": a.i, "b": b.i}
+			if kit.Str(op, "op") == "linkup" {
+				if err = r.connect(a, b); err == nil {
+					err = r.connect(b, a)
+				}
+			} else {
+				r.disconnect(a, b)
+				r.disconnect(b, a)
+			}
+			r.collectNone(ev)
+			r.observe(ev, nil)
 		default:
 			return nil, fmt.Errorf("net: unknown op %v", op["op"])
 		}
@@ -733,6 +807,15 @@ func runNet(sc kit.Scenario, logger logging.Logger) ([]kit.Ev, error) {
 		ev := r.deliver(s, m, fwd, false)
 		evs = append(evs, ev)
 		drained++
+	}
+	// relay handlers still waiting in FindRoute give up (their stream ends)
+	for _, x := range r.order {
+		if p := r.nodes[x].parked; p != nil {
+			routetab.VerifUseCache(x)
+			p.cancel()
+			<-p.finished
+			r.nodes[x].parked = nil
+		}
 	}
 	// FindRoute calls still waiting give up (their caller's context ends)
 	end := kit.Ev{"op": "end", "panicked": false}
